@@ -146,6 +146,7 @@ def shard_text(m, items):
     for label, text, inputs, is_lr in items:
         model = impl.compile_text(text)
         m.add('programs')
+        impl.rule_reach(m, 'handwritten-grammar-rules', label, model, inputs)
         for t in inputs:
             if lattice_case(m, text, model, t, is_lr):
                 m.add('nontrivial')
